@@ -187,7 +187,7 @@ func repErrObs(err error) string {
 	case errors.Is(err, tracker.ErrDecode):
 		return "err:decode"
 	case errors.As(err, &terr):
-		return "err:tracker"
+		return fmt.Sprintf("err:tracker ri=%d", int64(terr.RetryIn))
 	case errors.As(err, &serr):
 		return "err:status"
 	case strings.Contains(err.Error(), "too large"):
@@ -228,7 +228,8 @@ func genUDPSpecs(r *Rng, forAnnounce bool) string {
 		var payload []byte
 		switch {
 		case action == 3:
-			payload = []byte(r.repPickStr("d14:failure reason4:nopee", "d14:failure reason4:nope8:retry in1:5e", "garbage", "", "d14:failure reasoni5ee"))
+			payload = []byte(r.repPickStr("d14:failure reason4:nopee", "d14:failure reason4:nope8:retry in1:5e", "garbage", "", "d14:failure reasoni5ee",
+				"d14:failure reason4:nope8:retry in16:3749353613647811e", "d14:failure reason4:nope8:retry in9:153722868e", "d14:failure reason4:nope8:retry in4:1441e"))
 		case forAnnounce:
 			np := r.Pick(0, 1, 2, 5)
 			payload = make([]byte, 12+6*np)
@@ -289,7 +290,11 @@ func genHTTPOp(r *Rng) string {
 		body = []byte(s)
 		extra = "iv=900 mi=0 dp=" + joinOrDash(dps)
 	case "fail":
-		body = []byte("d" + repBstr("failure reason") + repBstr("not registered") + repBstr("retry in") + repBstr(r.repPickStr("5", "never", "")) + "e")
+		// `retry in` is a number of minutes as a string; also values whose conversion to a duration overflows
+		rs := r.repPickStr("5", "never", "", "0", "1", "-3", "1440", "1441", "153722867", "153722868", "3749353613647811",
+			"307445734561825", "9223372036854775807", "9223372036854775808", "99999999999999999999", "+7", "07", " 5")
+		body = []byte("d" + repBstr("failure reason") + repBstr("not registered") + repBstr("retry in") + repBstr(rs) + "e")
+		extra = "rs=" + hexs([]byte(rs))
 	case "raw":
 		body = r.Bytes(r.Range(0, 40))
 		if r.Chance(50) {
